@@ -230,20 +230,34 @@ def check(res, tier):
     for x in GT:
         for y in GT:
             for first in ("source", "target"):
-                da = "Der %s-Halter a ist ein Halter mit %s.\n" % (x, GT[x][1])
-                db = "Der %s-Halter b ist ein Halter mit %s.\n" % (y, GT[y][1])
-                body = (da + db if first == "source" else db + da)
-                for pos, stmt in (("assign", "Speichere a in b.\n"), ("init", "Der %s-Halter c ist a.\n" % y), ("field", "%s %s f ist wert von a.\n" % (
-                        "Der" if y in ("Text", "Namen") else "Die", y))):
-                    greqs.append({"files": {"main.ddp": GH + body + stmt}, "main": "main.ddp"})
-                    gmeta.append((pos, x, y, first))
+                for binit in ("literal", "default"):
+                    da = "Der %s-Halter a ist ein Halter mit %s.\n" % (x, GT[x][1])
+                    db = ("Der %s-Halter b ist ein Halter mit %s.\n" % (y, GT[y][1]) if binit == "literal" else
+                          "Der %s-Halter b ist der Standardwert von einem %s-Halter.\n" % (y, y))
+                    body = (da + db if first == "source" else db + da)
+                    for pos, stmt in (("assign", "Speichere a in b.\n"), ("init", "Der %s-Halter c ist a.\n" % y), ("field", "%s %s f ist wert von a.\n" % (
+                            "Der" if y in ("Text", "Namen") else "Die", y))):
+                        greqs.append({"files": {"main.ddp": GH + body + stmt}, "main": "main.ddp"})
+                        gmeta.append((pos, x, y, first + ":" + binit))
     gouts = corr.parse_many(harness, greqs)
     res.evaluations += len(greqs)
     gbad = 0
     for r, (pos, x, y, first), o in zip(greqs, gmeta, gouts):
         res.nontrivial("generic:%s:%s:%s:%s" % (pos, x, y, first))
-        errs = [d for d in o.get("diags", []) if d["level"] == 2]
+        stmt_line = r["files"]["main.ddp"].count("\n")          # the statement under test is the last line
+        errs_all = [d for d in o.get("diags", []) if d["level"] == 2]
+        before = [d for d in errs_all if d["range"][0] < stmt_line]
+        errs = [d for d in errs_all if d["range"][0] >= stmt_line]
         want_ok = GT[x][0] == GT[y][0]
+        if o["result"] == "ok" and before:
+            # the two declarations are well-formed whatever x and y are: each gives its Halter a value of exactly its type
+            gbad += 1
+            if gbad <= 4:
+                res.violation("generic-instantiation-decl:%s:%s:%s" % (x, y, first),
+                              "a well-formed declaration of a %s-Halter / %s-Halter is rejected (%s): the instantiations of a generic Kombination with a "
+                              "type definition and with its base type are different types, each accepting values of its own type" % (x, y, before[0]["msg"][:200]),
+                              {"program": r["files"]["main.ddp"], "implementation": o, "expected": "declarations accepted"})
+            continue
         if o["result"] != "ok" or (not errs) != want_ok:
             gbad += 1
             if gbad <= 4:
